@@ -524,6 +524,7 @@ Loop:
 		case ' ':
 		case '\n':
 		case '\t':
+		case '\r':
 			continue
 		case '[':
 			return true
@@ -1271,7 +1272,7 @@ func (p Patch) ApplyIndentWithOptions(doc []byte, indent string, options *ApplyO
 	self := newLazyNode(&raw)
 
 	var pd container
-	if doc[0] == '[' {
+	if isArray(doc) {
 		pd = &partialArray{
 			self: self,
 		}
